@@ -29,6 +29,7 @@ Record Inv (s : st) : Prop := {
   B1 : forall a, inflight (apc (A s a)) = true -> busy s (afd (A s a)) = Some a;
   B2 : forall f a, busy s f = Some a -> afd (A s a) = f /\ inflight (apc (A s a)) = true;
   F1 : forall k, nexts s <= k -> spc_ (Sb s k) = SDone;
+  S1 : forall g f e, Sel s g = THnd f e \/ Sel s g = THnd2 f e -> selof f = g;
   H1 : forall a, apc (A s a) = Susp <-> ahome (A s a) <> HNone;
   H2 : forall a k, ahome (A s a) = HSub k ->
          k < nexts s /\ sa (Sb s k) = a /\ sfd (Sb s k) = afd (A s a) /\ (spc_ (Sb s k) = SArm \/ spc_ (Sb s k) = SStore);
@@ -37,19 +38,20 @@ Record Inv (s : st) : Prop := {
   H5 : forall f a, co s f = Some a -> ahome (A s a) = HSlot f;
   H6 : forall a g, ahome (A s a) = HSel g -> exists f, Sel s g = SEvT f a;
   H7 : forall g f a, Sel s g = SEvT f a -> ahome (A s a) = HSel g;
-  H8 : forall a k, ahome (A s a) = HFast k -> k < nexts s /\ (spc_ (Sb s k) = SFastT a \/ spc_ (Sb s k) = SToT a);
-  H9 : forall k a, k < nexts s -> spc_ (Sb s k) = SFastT a \/ spc_ (Sb s k) = SToT a -> ahome (A s a) = HFast k;
+  H8 : forall a k, ahome (A s a) = HFast k -> k < nexts s /\ spc_ (Sb s k) = SFastT a;
+  H9 : forall k a, k < nexts s -> spc_ (Sb s k) = SFastT a -> ahome (A s a) = HFast k;
   H10 : forall a, ahome (A s a) = HAwake <-> aawake (A s a) = true;
   J : forall a, inJ (apc (A s a)) = true -> avail s (A s a) ->
         flag s (afd (A s a)) = true \/ pend s (afd (A s a)) = true;
   K : forall f a, co s f = Some a -> flag s f = true ->
-        Sel s (selof f) = SEv f \/ exists k, k < nexts s /\ sfd (Sb s k) = f /\
-                     (spc_ (Sb s k) = STo \/ spc_ (Sb s k) = STo2 \/ spc_ (Sb s k) = SChk \/ spc_ (Sb s k) = SFast)
+        Sel s (selof f) = SEv f \/ (exists e, Sel s (selof f) = THnd2 f e) \/
+        exists k, k < nexts s /\ sfd (Sb s k) = f /\ (spc_ (Sb s k) = SChk \/ spc_ (Sb s k) = SFast)
 }.
 
 Lemma inv_init : Inv (init).
 Proof.
   constructor; cbn; intros; try discriminate; try lia; try tauto.
+  - destruct H; discriminate.
   - split; [discriminate | congruence].
   - split; discriminate.
 Qed.
@@ -161,7 +163,7 @@ Proof.
   - intros f' E'. apply (H5 _ I) in E'. congruence.
 Qed.
 (* a coroutine in the hands of fast_schedule *)
-Lemma fast_facts k c : k < nexts s -> spc_ (Sb s k) = SFastT c \/ spc_ (Sb s k) = SToT c ->
+Lemma fast_facts k c : k < nexts s -> spc_ (Sb s k) = SFastT c ->
   ahome (A s c) = HFast k /\ apc (A s c) = Susp /\ aawake (A s c) = false /\ (forall f', co s f' <> Some c) /\
   busy s (afd (A s c)) = Some c.
 Proof.
